@@ -462,3 +462,83 @@ func sortEntries(m *val.Value) {
 	}
 	*m = val.Reorder(*m, idx)
 }
+
+// GrowShared changes, through memory that a copy of v made by plain assignment still shares
+// (slice elements, map values, what pointers point to), the first string it can reach: the
+// string gets longer. v must be addressable. It reports whether it found one.
+func GrowShared(v reflect.Value) bool {
+	switch v.Kind() {
+	case reflect.Slice:
+		for i := 0; i < v.Len(); i++ {
+			if growAny(v.Index(i)) {
+				return true
+			}
+		}
+	case reflect.Ptr:
+		if !v.IsNil() {
+			return growAny(v.Elem())
+		}
+	case reflect.Map:
+		return growMap(v)
+	case reflect.Struct:
+		if v.Type() == timeType {
+			return false
+		}
+		for i := 0; i < v.NumField(); i++ {
+			if GrowShared(field(v, i)) {
+				return true
+			}
+		}
+	}
+	return false
+}
+
+func growMap(v reflect.Value) bool {
+	keys := v.MapKeys()
+	if len(keys) == 0 {
+		return false
+	}
+	best := 0
+	for i := range keys {
+		if fmt.Sprint(keys[i]) < fmt.Sprint(keys[best]) {
+			best = i
+		}
+	}
+	cp := reflect.New(v.Type().Elem()).Elem()
+	cp.Set(v.MapIndex(keys[best]))
+	if growAny(cp) {
+		v.SetMapIndex(keys[best], cp)
+		return true
+	}
+	return false
+}
+
+func growAny(v reflect.Value) bool {
+	switch v.Kind() {
+	case reflect.String:
+		v.SetString(v.String() + "+grown")
+		return true
+	case reflect.Slice:
+		for i := 0; i < v.Len(); i++ {
+			if growAny(v.Index(i)) {
+				return true
+			}
+		}
+	case reflect.Ptr:
+		if !v.IsNil() {
+			return growAny(v.Elem())
+		}
+	case reflect.Map:
+		return growMap(v)
+	case reflect.Struct:
+		if v.Type() == timeType {
+			return false
+		}
+		for i := 0; i < v.NumField(); i++ {
+			if growAny(field(v, i)) {
+				return true
+			}
+		}
+	}
+	return false
+}
